@@ -429,7 +429,12 @@ Lemma rots_cases m si d ntp f :
        nth_error (m_streams m) si = Some s /\ st_open s = Some seg /\ st_openpart s = Some p0 /\
        m_streams r = upd (m_streams m) si (fun _ => s2) /\
        m_tracks r = snd (part_finalize p0 (m_tracks m) (st_tracks s) d) /\
-       st_tracks s2 = st_tracks s /\ st_open s2 <> None /\ st_openpart s2 <> None.
+       st_tracks s2 = st_tracks s /\ st_open s2 <> None /\ st_openpart s2 <> None /\
+       exists cur,
+         let pf := part_finalize p0 (m_tracks m) (st_tracks s) d in
+         s2 = fst (fst (srot_segments (c_variant (m_cfg m)) (c_segcount (m_cfg m))
+                          (fst (srot_parts (c_variant (m_cfg m)) s seg (fst pf) d false))
+                          (sg_with_parts seg (sg_parts seg ++ [fst pf])) d ntp f cur)).
 Proof.
   intros Hv Hok. cbv zeta. unfold stream_rotateSegments.
   assert (Em1 : (match c_variant (m_cfg m) with MPEGTS => m | _ => stream_rotateParts m si d false end)
@@ -477,12 +482,13 @@ Proof.
     + rewrite HT. subst s1. apply srot_parts_tracks.
     + rewrite F6. discriminate.
     + rewrite F7. destruct (c_variant (m_cfg m)); [congruence|discriminate|discriminate].
+    + eexists. cbv zeta. fold pf. fold s1. rewrite cfg_stream_rotateParts in Er. rewrite Er. reflexivity.
 Qed.
 
 Lemma LI_rots m si d ntp f : LI m -> LI (stream_rotateSegments m si d ntp f).
 Proof.
   intros HL. pose proof HL as [L1 L2 L3 L4 L5 L6].
-  destruct (rots_cases m si d ntp f L1) as [[E1 E2]|(s & seg & p0 & s2 & Es & Eo & Ep & E1 & E2 & T2 & O2 & P2)].
+  destruct (rots_cases m si d ntp f L1) as [[E1 E2]|(s & seg & p0 & s2 & Es & Eo & Ep & E1 & E2 & T2 & O2 & P2 & _)].
   - intros s Hs. apply L5. eapply nth_error_In; eauto.
   - apply (LI_ext m); auto using cfg_stream_rotateSegments. now rewrite E2.
   - apply (LI_pointwise m); [apply cfg_stream_rotateSegments| | |exact HL].
